@@ -837,6 +837,13 @@ func (br *bodyRun) runBlock(b *ssa.BasicBlock, st *State) {
 			br.addDefer(st, x)
 		default:
 			br.step(st, ins, b, idx)
+			if ci, ok := ins.(ssa.CallInstruction); ok && br.ct != nil && len(br.ct.Asserts) > 0 {
+				if n := calleeName(ci); n != "" {
+					key := fmt.Sprintf("called|%s#%d", n, br.siteOrdinal(ci, n))
+					fc.keySort[key] = "Bool"
+					st.heap[key] = "true"
+				}
+			}
 		}
 		br.userAsserts(b, idx, ins, st, "after")
 	}
